@@ -161,5 +161,73 @@ class FM(Space):
         return Outcome(viol=viol, tags=tags, obs=hash(out))
 
 
+class FMCli(Space):
+    """The same exactness clause observed at the command line ("CLI file output"): a file holding frontmatter + body is formatted
+    in place / to stdout / from stdin and the frontmatter must arrive character for character (CRLF -> LF only)."""
+
+    prop = "C07"
+    name = "frontmatter-cli"
+    ENTRIES = ("file-inplace", "file-stdout", "stdin")
+
+    def __init__(self, tier):
+        self.lines = list(range(len(FM_LINES)))
+        self.floors = {"special-line-char": 20, "crlf": 20}
+
+    def cases(self):
+        for li in self.lines:
+            for crlf in (False, True):
+                for e in range(len(self.ENTRIES)):
+                    for body in (1, 4):
+                        yield (li, crlf, e, body)
+
+    def text(self, case):
+        li, crlf, e, body = case
+        nl = "\r\n" if crlf else "\n"
+        return nl.join(["---", FM_LINES[li], "---"]) + nl + BODIES[body].replace("\n", nl) + nl
+
+    def describe(self, case):
+        return {"file_content": self.text(case), "entry": self.ENTRIES[case[2]]}
+
+    def smaller(self, case):
+        li, crlf, e, body = case
+        if crlf:
+            yield (li, False, e, body)
+        if body != 1:
+            yield (li, crlf, e, 1)
+        if e:
+            yield (li, crlf, 0, body)
+
+    def evaluate(self, case):
+        from vf import cli
+        import os
+        li, crlf, e, body = case
+        text = self.text(case)
+        tags = []
+        if crlf:
+            tags.append("crlf")
+        if any(ord(ch) in (0x2028, 0x2029, 0x85, 0x0c, 0x0b, 0x1c, 0x1d, 0x1e, 0x0d) for ch in FM_LINES[li]):
+            tags.append("special-line-char")
+        fm_lines, body_text, closed = ref_split(text)
+        if not closed:
+            return Outcome(tags=tags)
+        opts = dict(width=88, semantic=False, cleanups=False)
+        expected = "\n".join(fm_lines) + "\n" + reformat_text(body_text, **opts)
+        entry = self.ENTRIES[e]
+        with cli.scenario({"a.md": text}) as d:
+            if entry == "file-inplace":
+                code, out, err = cli.run_inproc(["-i", "--nobackup", "a.md"], d)
+                with open(os.path.join(d, "a.md"), newline="", encoding="utf8") as f:
+                    got = f.read()
+            elif entry == "file-stdout":
+                code, got, err = cli.run_inproc(["a.md"], d)
+            else:
+                code, got, err = cli.run_inproc(["-"], d, stdin=text)
+        viol = []
+        if code != 0 or got != expected:
+            sig = "cli:frontmatter-altered" if not got.startswith("\n".join(fm_lines) + "\n") else "cli:body-differs"
+            viol.append((sig, {"file_content": text, "entry": entry, "exit": code, "output": got, "expected": expected}))
+        return Outcome(viol=viol, tags=tags, obs=hash(got))
+
+
 def spaces(tier):
-    return [FM(tier)]
+    return [FM(tier), FMCli(tier)]
